@@ -200,6 +200,31 @@ impl Prop for C14 {
                 };
                 let top = sb.layers.last().unwrap().clone();
                 let bytes = payload.bytes();
+                // the filesystem's localizer is the game's localizer (same mapping as the standalone API and the table)
+                for probe in ["m/GameData.bin.lz", "m", "a/b/c.bin", "x/"] {
+                    let got = fs.localizer().localize(probe, &lang).ok();
+                    let want = expected_localized(g, lang, probe);
+                    if !cx.check(got == want, "fs-uses-the-game-localizer", || format!("{g:?}/{lang:?}: fs.localizer().localize({probe:?}) = {got:?}, expected {want:?}")) {
+                        return;
+                    }
+                }
+                // paths without a final component are errors for every localized operation, whatever the language
+                for bad in ["", "/", "..", "m/.."] {
+                    let outcomes = (
+                        fs.exists(bad, true).is_err(),
+                        fs.file_exists(bad, true).is_err(),
+                        fs.directory_exists(bad, true).is_err(),
+                        fs.read(bad, true).is_err(),
+                        fs.list(bad, None, true).is_err(),
+                        fs.subdirectories(bad, true).is_err(),
+                        fs.resolve(bad, true).is_none(),
+                    );
+                    if !cx.check(outcomes == (true, true, true, true, true, true, true), "fs-path-without-final-component-is-an-error-everywhere", || {
+                        format!("{g:?}/{lang:?}: localized operations on {bad:?}: (exists, file_exists, directory_exists, read, list, subdirectories are errors; resolve is None) = {outcomes:?}")
+                    }) {
+                        return;
+                    }
+                }
                 // a file path (no trailing slash) so that writing is meaningful
                 let path = path.trim_end_matches('/');
                 if path.is_empty() {
@@ -214,6 +239,15 @@ impl Prop for C14 {
                     None => {
                         cx.nontrivial();
                         cx.label("fs:unsupported-pair");
+                        // even when a file sits at the unlocalized path
+                        let _ = fs.write(path, &bytes, false);
+                        if !cx.check(fs.resolve(path, true).is_none() && fs.read(path, true).is_err() && fs.exists(path, true).is_err(), "fs-unsupported-pair-is-an-error-everywhere", || {
+                            format!("{g:?}/{lang:?} {path:?}: with a file at the unlocalized path, resolve(localized) = {:?}, read is_err {}, exists {:?}", fs.resolve(path, true), fs.read(path, true).is_err(), fs.exists(path, true).map_err(|_| ()))
+                        }) {
+                            return;
+                        }
+                        let _ = std::fs::remove_dir_all(&top);
+                        let _ = std::fs::create_dir_all(&top);
                         // every localized operation must report the error
                         let all_err = w.is_err()
                             && fs.read(path, true).is_err()
